@@ -14,6 +14,8 @@ CONSTANTS
   MaxOld = 2
   Transports <- TrIP
   ScmpTypes <- ScmpNone
+  HdrStates <- HdrStr0
+  HdrPct = 0
   Exhaustive = TRUE
   Biases <- BiasOne
   TickPct = 0
